@@ -37,13 +37,14 @@ ASSUME = [
 ]
 
 KEYS = {   # must equal KeysQ / KeysX of spec/TcpAuthMC.tla (checked against the New step of the generated behaviours)
-    "Q": [dict(name=1, cls=1, sec=1), dict(name=2, cls=2, sec=1), dict(name=3, cls=3, sec=2), dict(name=4, cls=4, sec=2),
+    # name 99 = the key configured without an id (ID "")
+    "Q": [dict(name=1, cls=1, sec=1), dict(name=2, cls=2, sec=1), dict(name=99, cls=3, sec=2), dict(name=4, cls=4, sec=2),
           dict(name=5, cls=1, sec=1)],
     # driver `storm`: one key per cipher class with marked salts
-    "S3": [dict(name=1, cls=1, sec=1), dict(name=2, cls=2, sec=2), dict(name=3, cls=3, sec=3)],
+    "S3": [dict(name=1, cls=1, sec=1), dict(name=99, cls=2, sec=2), dict(name=3, cls=3, sec=3)],
     # driver `fault`: one key per cipher class
-    "S4": [dict(name=1, cls=1, sec=1), dict(name=2, cls=2, sec=2), dict(name=3, cls=3, sec=3), dict(name=4, cls=4, sec=4)],
-    "X": [dict(name=1, cls=4, sec=1), dict(name=2, cls=3, sec=1), dict(name=3, cls=2, sec=1), dict(name=4, cls=1, sec=1)],
+    "S4": [dict(name=1, cls=1, sec=1), dict(name=2, cls=2, sec=2), dict(name=99, cls=3, sec=3), dict(name=4, cls=4, sec=4)],
+    "X": [dict(name=1, cls=4, sec=1), dict(name=99, cls=3, sec=1), dict(name=3, cls=2, sec=1), dict(name=4, cls=1, sec=1)],
 }
 
 
